@@ -17,7 +17,14 @@ RULE = ("random Scores, both classes non-empty, arbitrary ties (full AUC) / no c
 TRUSTED = ["np.trapezoid as the trapezoid sum; np.searchsorted on the (sorted) x vector as counts; np.nextafter = succ64/pred64",
            "the float trapezoid rounds: exact comparison only when every abscissa/ordinate is dyadic (class totals powers of two)"]
 ASSUMPTIONS = ["both classes non-empty", "finite scores"]
-TIES = []
+
+
+def _ties():
+    from harness.translate import scores_tr
+    return [{"name": "scores.auc", "translate": scores_tr.translate_auc, "gen_file": "Gen_auc.v", "tie_file": "Tie_auc.v"}]
+
+
+TIES = _ties()
 
 
 def gen_cases(rng, tier):
